@@ -97,6 +97,17 @@ def c12(ctx):
              "whose Newline case reports newlines = 1 and the next line start = end; the whitespace skipped before a token excludes '\\n'")
     rep.rule("C12.R4", "provenance of line counts: every value stored in LexResult.newlines is a literal, or a counter incremented by one "
              "under a test `c == '\\n'` while scanning the token's own characters; every new_line_start is None, or offset-of-that-newline + 1")
+    rep.rule("C12.R6", "merging a token's result with its suffix keeps the token's line information: in LexResult::extended_to the "
+             "`newlines` and `new_line_start` of the merged result depend on the receiver's own fields (a field left untouched does); a "
+             "merge that takes them from the suffix alone forgets the line breaks inside a multi-line string or comment")
+    merge_rule(ctx)
+    rep.rule("C12.R5", "ORDERINGS: SourceRange::new, SourceLocation::to and the From conversions return, for every order configuration of "
+             "the two line numbers and the two columns (3 x 3 weak orders, exhaustive), the range whose start is the lexicographically "
+             "smaller (line, column) and whose end is the larger; SourceRange::concat of two ordered, non-overlapping ranges (weak "
+             "orders of four lines x four columns restricted to that precondition; thorough tier) starts at the smaller start and "
+             "ends at the larger end.  The code is interpreted by KIND with every comparison decided by the configuration; a "
+             "comparison the configuration cannot decide (a line against a column) is reported")
+    ordering_rule(ctx)
     units_rule(ctx, "C12.R1")
     # ---- R2
     ml = F.fn(LEX + "match_loop")
@@ -354,3 +365,137 @@ def _guarded_counter(F, fn, l, fname):
             if not good:
                 return False, "is not updated by exactly one per newline / to the offset after the newline"
     return True, ""
+
+
+
+def merge_rule(ctx):
+    F, rep = ctx.F, ctx.rep
+    fn = F.fn("frontend::lexer::LexResult::<'a>::extended_to")
+    if fn is None:
+        rep.fail("C12.R6", "anchor", "LexResult::extended_to not found")
+        return
+    rep.analysed(fn)
+    from .c03 import kind_deep
+    # the value returned is the receiver (moved) or a fresh aggregate
+    ret_srcs = set()
+    for bi, si, st in fn.assigns():
+        if st["pl"]["l"] == 0 and not st["pl"]["p"]:
+            ret_srcs |= {d for d, p in origins(fn, st["rv"]["use"])} if "use" in st["rv"] else {("other",)}
+            agg = st["rv"].get("agg")
+            if isinstance(agg, dict):
+                ret_srcs.add(("agg", bi, si))
+    for field in ("newlines", "new_line_start"):
+        ok, why = True, ""
+        if ret_srcs == {("param", 1)}:
+            writes = [(bi, si, st) for bi, si, st in fn.assigns() if st["pl"]["l"] == 1 and [e.get("name") for e in st["pl"]["p"] if isinstance(e, dict) and "f" in e][:1] == [field]]
+            for bi, si, st in writes:
+                from ..flow import rvalue_operands
+                deps = set()
+                for o in rvalue_operands(st["rv"]):
+                    deps |= kind_deep(fn, o)
+                if not any(d == ("param", 1) and p[:1] == (field,) for d, p in deps):
+                    ok = False
+                    why = "extended_to overwrites `%s` with a value that does not depend on the receiver's own `%s`: the line breaks inside the first token are forgotten when a suffix is merged" % (field, field)
+        else:
+            ok, why = False, "shape not recognised: extended_to does not return its (updated) receiver"
+        rep.ob("C12.R6", "merge-keeps::%s" % field, ok, why, fn.loc(), how="result.%s depends on self.%s" % (field, field))
+
+
+
+def ordering_rule(ctx):
+    F, rep = ctx.F, ctx.rep
+    from .. import order, kindtables as kt
+    from ..kind import E
+    SL = "frontend::source_range::SourceLocation"
+    SR = "frontend::source_range::SourceRange"
+    s = E(SL, "SourceLocation", ("sym", "sl"), ("sym", "sc"))
+    e = E(SL, "SourceLocation", ("sym", "el"), ("sym", "ec"))
+    chains = [["sl", "el"], ["sc", "ec"]]
+    entries = []
+    for path, mk in (("frontend::source_range::SourceRange::new", lambda: [s, e]),
+                     ("frontend::source_range::SourceLocation::to", lambda: [s, e]),
+                     ("<frontend::source_range::SourceRange as std::convert::From<(frontend::source_range::SourceLocation, frontend::source_range::SourceLocation)>>::from", lambda: [("t", (s, e))]),
+                     ("<frontend::source_range::SourceRange as std::convert::From<((u32, u32), (u32, u32))>>::from", lambda: [("t", (("t", (("sym", "sl"), ("sym", "sc"))), ("t", (("sym", "el"), ("sym", "ec")))))])):
+        fn = F.fn(path)
+        if fn is None:
+            rep.fail("C12.R5", "anchor::" + path.rsplit("::", 2)[-2] + "::" + path.rsplit("::", 1)[-1], "%s not found" % path)
+            continue
+        rep.analysed(fn)
+        entries.append((path, fn, mk))
+    n = 0
+    for path, fn, mk in entries:
+        short = path.replace("frontend::source_range::", "").replace("std::convert::", "")
+        for r1 in order.weak_orders(chains[0]):
+            for r2 in order.weak_orders(chains[1]):
+                cfg = order.Config(chains, {**r1, **r2})
+                I = order.interp(F, cfg)
+                outs = I.run(fn, mk())
+                n += 1
+                rets = {kt.term(o.ret) for o in outs}
+                lo_first = (cfg.rank["sl"], cfg.rank["sc"]) <= (cfg.rank["el"], cfg.rank["ec"])
+                hi_first = (cfg.rank["el"], cfg.rank["ec"]) <= (cfg.rank["sl"], cfg.rank["sc"])
+                want = set()
+                if lo_first:
+                    want.add("SourceRange(SourceLocation(sl,sc),SourceLocation(el,ec))")
+                if hi_first:
+                    want.add("SourceRange(SourceLocation(el,ec),SourceLocation(sl,sc))")
+                ok = len(rets) == 1 and rets <= want and not cfg.undecided and not I.incomplete and not any(o.conds for o in outs)
+                why = ""
+                if not ok:
+                    if cfg.undecided:
+                        why = "%s compares %s with %s, which no order of lines and of columns decides" % (short, cfg.undecided[0][0], cfg.undecided[0][1])
+                    else:
+                        why = "for %s, %s yields %s; the range must run from the lexicographically smaller (line, column) to the larger: %s" % (
+                            cfg.describe(), short, sorted(rets), sorted(want))
+                rep.ob("C12.R5", "order::%s::%s" % (short, cfg.describe()), ok, why, fn.loc(), how=next(iter(rets)) if rets else "")
+    rep.floor("C12.R5", n, 36, "(entry point, order configuration) pairs")
+    rep.exhaustive["C12.R5 weak orders of 2 lines x 2 columns"] = True
+    if ctx.thorough:
+        concat_rule(ctx)
+
+
+def concat_rule(ctx):
+    F, rep = ctx.F, ctx.rep
+    from .. import order, kindtables as kt
+    from ..kind import E
+    SL = "frontend::source_range::SourceLocation"
+    SR = "frontend::source_range::SourceRange"
+    fn = F.fn("frontend::source_range::SourceRange::concat")
+    if fn is None:
+        rep.fail("C12.R5", "anchor::concat", "SourceRange::concat not found")
+        return
+    rep.analysed(fn)
+    L = ["al", "bl", "cl", "dl"]
+    C = ["ac", "bc", "cc", "dc"]
+    loc = {k: E(SL, "SourceLocation", ("sym", k + "l"), ("sym", k + "c")) for k in "abcd"}
+    r1 = E(SR, "SourceRange", loc["a"], loc["b"])
+    r2 = E(SR, "SourceRange", loc["c"], loc["d"])
+    n = bad = 0
+    first_bad = None
+    los = order.weak_orders(L)
+    cos = order.weak_orders(C)
+    for lo in los:
+        for co in cos:
+            rank = {**lo, **co}
+            key = {k: (rank[k + "l"], rank[k + "c"]) for k in "abcd"}
+            # precondition: both ranges ordered, and one ends before (or where) the other starts
+            if not (key["a"] <= key["b"] and key["c"] <= key["d"] and (key["b"] <= key["c"] or key["d"] <= key["a"])):
+                continue
+            cfg = order.Config([L, C], rank)
+            I = order.interp(F, cfg)
+            outs = I.run(fn, [r1, r2])
+            n += 1
+            rets = {kt.term(o.ret) for o in outs}
+            starts = [k for k in "ac" if key[k] == min(key["a"], key["c"])]
+            ends = [k for k in "bd" if key[k] == max(key["b"], key["d"])]
+            want = {"SourceRange(SourceLocation(%sl,%sc),SourceLocation(%sl,%sc))" % (x, x, y, y) for x in starts for y in ends}
+            ok = len(rets) == 1 and rets <= want and not cfg.undecided and not I.incomplete
+            if not ok:
+                bad += 1
+                if first_bad is None:
+                    first_bad = (cfg.describe(), sorted(rets), sorted(want), list(cfg.undecided)[:1])
+    rep.ob("C12.R5", "order::concat::ordered-disjoint-ranges", bad == 0,
+           "" if bad == 0 else "SourceRange::concat is wrong for %d of %d order configurations of two ordered, non-overlapping ranges, e.g. %s: yields %s, the hull is %s%s" % (
+               bad, n, first_bad[0], first_bad[1], first_bad[2], (" (undecidable comparison %s)" % (first_bad[3],)) if first_bad[3] else ""),
+           fn.loc(), how="%d configurations, each yields the hull" % n)
+    rep.exhaustive["C12.R5 concat: weak orders of 4 lines x 4 columns under the precondition (%d)" % n] = True
